@@ -176,15 +176,23 @@ def r_enqueue_guard(ctx, rule='R01.4', need_min=False):
         for (bb, t) in pushes:
             v = c.origin.operand(t['args'][1], c.term_point(bb))
             ubt = M.simplify_field(v, 'ub', 'common::SubProblem')
-            parent_ub = lambda x: M.is_param(x) and x[1] == b.name
+            # the cap: a scalar parameter of enqueue_cutset, or the ub of a sub-problem handed to it (the parent node itself)
+            cap_scalar = lambda x: M.is_param(x) and x[1] == b.name
+            cap_node = lambda x: is_subproblem_field(x, 'ub') and M.is_param(x[1]) and x[1][1] == b.name
+            parent_ub = lambda x: cap_scalar(x) or cap_node(x)
+            child_own = lambda x: is_subproblem_field(x, 'ub') and M.is_param(x[1]) and x[1][1] == c.name
             is_min = isinstance(ubt, tuple) and ubt[0] == 'min' and any(parent_ub(x) for x in ubt[1]) and \
-                any(is_subproblem_field(x, 'ub') and M.is_param(x[1]) for x in ubt[1]) and len(ubt[1]) == 2
-            own = is_subproblem_field(ubt, 'ub') and M.is_param(ubt[1])
+                any(child_own(x) for x in ubt[1]) and len(ubt[1]) == 2
+            own = child_own(ubt)
             if need_min:
                 pn = ctx.body(adt, 'process_one_node')
+                caps = [x for x in (ubt[1] if is_min else ()) if parent_ub(x)]
                 for (cbb, ct) in pn.calls_to('enqueue_cutset'):
-                    ua = pn.origin.operand(ct['args'][-1], pn.term_point(cbb))
-                    ctx.check(is_subproblem_field(ua, 'ub') and M.is_param(ua[1]), 'R19.2', tag + '/cap-is-popped-ub', pn, pn.loc(cbb),
+                    pidx = (caps[0][2] if cap_scalar(caps[0]) else caps[0][1][2]) if caps else len(ct['args']) - 1
+                    ua = pn.origin.operand(ct['args'][pidx], pn.term_point(cbb)) if pidx < len(ct['args']) else None
+                    good_cap = (is_subproblem_field(ua, 'ub') and M.is_param(ua[1]) and ua[1][1] == pn.name) if (not caps or cap_scalar(caps[0])) else \
+                        (M.is_param(ua) and ua[1] == pn.name and 'SubProblem' in (pn.raw['locals'][ua[2] + 1].get('ty') or ''))
+                    ctx.check(good_cap, 'R19.2', tag + '/cap-is-popped-ub', pn, pn.loc(cbb),
                               'the cap handed to enqueue_cutset is the ub of the node being processed',
                               'enqueue_cutset is called with %s instead of the popped node\'s ub: the cap by the parent bound silently disappears' % M.show(ua)[:160])
                 ctx.check(is_min, 'R19.2', tag + '/child-ub-cap', c, c.loc(bb),
@@ -837,7 +845,7 @@ def r_nb_threads(ctx):
                 markers.append((body, pt, val))
     ctx.floor('R04.7', 'writers', None, n_writers, 2, 'writers of nb_threads (constructor + with_nb_threads)')
     vals = set(m[2] for m in markers)
-    one = len(vals) == 1 and M.is_const(list(vals)[0]) and (list(vals)[0][2] or '').endswith('MIN')
+    one = len(vals) == 1 and is_min_const(list(vals)[0])
     if markers:
         ctx.check(one and len(markers) >= 3, 'R05.4', 'idle-marker', markers[0][0], markers[0][0].loc(*markers[0][1]),
                   'idle workers hold isize::MIN in upper_bounds at all %d places (neutral element of the max taken at abort)' % len(markers),
@@ -867,6 +875,10 @@ def r_abort(ctx):
                     if lit and lit[0] == 'in' and lit[2] == frozenset(['Err']) and M.is_call(lit[1], 'process_one_node'):
                         starts.append((tb, 0))
         ab = [loopb.term_point(bb) for (bb, t) in loopb.calls_to('abort_search')]
+        proof_w = [(pt, d, v) for (pt, d, v, s) in writes(loopb) if solver_field(d, 'abort_proof')]
+        if not ab:
+            # the abort handling is written (or was inlined) in place: the abort IS the write abort_proof := Some(..)
+            ab = [pt for (pt, d, v) in proof_w if isinstance(v, tuple) and v[0] == 'aggr' and v[2] == 'Some']
         if ctx.floor('R05.2', tag + '/err-arm', loopb, len(starts), 1, 'Err arm on the result of process_one_node') and \
                 ctx.floor('R05.2', tag + '/abort-call', loopb, len(ab), 1, 'abort_search call'):
             Z = ret_points(loopb) + [loopb.term_point(bb) for (bb, t) in loopb.calls_to('get_workload')]
@@ -882,12 +894,18 @@ def r_abort(ctx):
                 ctx.check((not back) or guarded_write, 'R05.3', 'seq/no-complete-after-abort', loopb, loopb.loc(ab[0][0]),
                           'after abort_search the sequential loop never asks for work again (so best_ub := best_lb is unreachable after an abort)',
                           'after abort_search the loop calls get_workload again, whose completion branch overwrites best_ub with best_lb on the emptied fringe')
-        asb = ctx.body(adt, 'abort_search')
-        ws = [(pt, d, v) for (pt, d, v, s) in writes(asb) if solver_field(d, 'abort_proof')]
-        good = bool(ws) and all(isinstance(v, tuple) and v[0] == 'aggr' and v[2] == 'Some' and M.is_param(v[3][0][1]) for (pt, d, v) in ws)
-        if good:
-            r = asb.reach([(0, 0)], avoid=[pt for (pt, d, v) in ws])
-            good = not any(p in r for p in ret_points(asb))
+        asbs = [x for x in F.find(adt=adt, name='abort_search') if x.name in F.bodies]
+        if asbs:
+            asb = asbs[0]
+            ws = [(pt, d, v) for (pt, d, v, s) in writes(asb) if solver_field(d, 'abort_proof')]
+            good = bool(ws) and all(isinstance(v, tuple) and v[0] == 'aggr' and v[2] == 'Some' and M.is_param(v[3][0][1]) for (pt, d, v) in ws)
+            if good:
+                r = asb.reach([(0, 0)], avoid=[pt for (pt, d, v) in ws])
+                good = not any(p in r for p in ret_points(asb))
+        else:
+            # in place: the proof recorded is the reason carried by the Err of process_one_node
+            asb = loopb
+            good = bool(proof_w) and all(isinstance(v, tuple) and v[0] == 'aggr' and v[2] == 'Some' and M.contains(v[3][0][1], lambda x: M.is_call(x, 'process_one_node')) for (pt, d, v) in proof_w)
         ctx.check(good, 'R05.2', tag + '/abort-sets-proof', asb, asb.loc(0), 'abort_search records abort_proof = Some(reason) on every path',
                   'abort_search does not set abort_proof := Some(reason) on every path')
     # R05.3 (parallel): the collapse best_ub := best_lb must be guarded by abort_proof.is_none() under the same lock
@@ -919,7 +937,7 @@ def r_abort(ctx):
             prev = any(solver_field(x, 'best_ub') for x in items)
             # the previous value may be skipped only on the edge asserting best_ub == MAX
             first_abort = lambda atoms: any(
-                M.cmp_matches(a, lambda t: solver_field(t, 'best_ub'), lambda t: M.is_const(t) and (t[2] or '').endswith('MAX'), '=') for a in atoms)
+                M.cmp_matches(a, lambda t: solver_field(t, 'best_ub'), lambda t: is_max_const(t), '=') for a in atoms)
             if not prev:
                 ok, cut, bad = M.guarded(asb, [pt], lambda atoms, lit: first_abort(atoms))
                 prev = ok or first_abort([a for c_ in conds for a in M.lit_atoms(c_)])
